@@ -2,6 +2,7 @@
 package router
 
 import (
+	"time"
 	"context"
 	"math/rand"
 
@@ -97,4 +98,43 @@ func zzWeightedOnce(cfg []v2.WeightedCluster, w []int, n int, draw uint32, v int
 		}
 	}
 	verif.Assert(ok, "selected cluster's cumulative interval does not contain the draw (weights not honoured exactly)")
+}
+
+// VerifC17_RoutePolicyFromConfig: the route is one of the sources of the
+// per-try timeout and of the retry budget. A rule built by the real
+// constructor from a route configuration reports exactly the configured
+// retry_on, retry_timeout (any duration), num_retries (any value) and status
+// codes - whether or not retry_on is set (connection failures are retried with
+// the configured budget, and the per-try timeout applies, also when retry_on
+// is off) - and the configured global timeout; a route without a retry policy
+// reports none.
+func VerifC17_RoutePolicyFromConfig() {
+	r := &v2.Router{}
+	r.Route.ClusterName = "c"
+	global := time.Duration(verif.U32("timeout_ms")) * time.Millisecond
+	r.Route.Timeout = global
+	has := verif.Choose("has_retry_policy", 2) == 1
+	on := verif.Bool("retry_on")
+	try := time.Duration(verif.U32("retry_timeout_ms")) * time.Millisecond
+	n := verif.U32("num_retries")
+	if has {
+		r.Route.RetryPolicy = &v2.RetryPolicy{RetryPolicyConfig: v2.RetryPolicyConfig{RetryOn: on, NumRetries: n, StatusCodes: []uint32{503}}, RetryTimeout: try}
+	}
+	rri, err := NewRouteRuleImplBase(nil, r)
+	verif.Assert(err == nil && rri != nil, "a plain route was refused")
+	if rri == nil {
+		return
+	}
+	verif.Assert(rri.GlobalTimeout() == global, "the rule's global timeout is not the configured one")
+	rp := rri.Policy().RetryPolicy()
+	if !has {
+		verif.Assert(!rp.RetryOn() && rp.TryTimeout() == 0 && rp.NumRetries() == 0, "a route without a retry policy reports one")
+		verif.Cover("no-policy")
+		return
+	}
+	verif.Assert(rp.RetryOn() == on, "the rule's retry_on is not the configured one")
+	verif.Assert(rp.TryTimeout() == try, "the rule's per-try timeout is not the configured retry_timeout (it is dropped when retry_on is off)")
+	verif.Assert(rp.NumRetries() == n, "the rule's retry budget is not the configured num_retries (it is dropped when retry_on is off)")
+	verif.Assert(len(rp.RetryableStatusCodes()) == 1 && rp.RetryableStatusCodes()[0] == 503, "the rule's retriable status codes are not the configured ones")
+	verif.Cover("end")
 }
